@@ -34,13 +34,84 @@ type anchor struct {
 	Consts map[string]interface{} `json:"consts"` // printed identifier -> value (number) or Lean term (string)
 	Widths map[string]int    `json:"widths"` // conversion name -> width (e.g. uint32: 32)
 	Signed bool              `json:"signed"` // ordered comparisons are signed (Go int/int64 operands)
+	// Params, when present, is the list of free identifiers (sanitized) the tie lemmas expect. An
+	// identifier outside it that is a local of the function with exactly one definition (a hoisted
+	// sub-expression: `scrollPixels := lines * glyphHeight`) is replaced by its defining expression,
+	// so that naming a sub-expression in the source does not change the regenerated term.
+	Params []string `json:"params"`
 }
 
 type tr struct {
-	a      anchor
-	params []string
-	seen   map[string]bool
-	err    error
+	a        anchor
+	params   []string
+	seen     map[string]bool
+	err      error
+	fd       *ast.FuncDecl
+	inlining map[string]bool
+}
+
+// singleDef returns the defining expression of local `name` in the function when it is defined exactly
+// once (`name := e` or `var name = e`) and never assigned again; nil otherwise.
+func (t *tr) singleDef(name string) ast.Expr {
+	if t.fd == nil {
+		return nil
+	}
+	var def ast.Expr
+	defs, writes := 0, 0
+	ast.Inspect(t.fd, func(nd ast.Node) bool {
+		switch s := nd.(type) {
+		case *ast.AssignStmt:
+			for i, lhs := range s.Lhs {
+				if id, ok := lhs.(*ast.Ident); ok && id.Name == name {
+					if s.Tok == token.DEFINE && len(s.Lhs) == len(s.Rhs) {
+						defs++
+						def = s.Rhs[i]
+					} else {
+						writes++
+					}
+				}
+			}
+		case *ast.ValueSpec:
+			for i, nm := range s.Names {
+				if nm.Name == name {
+					if i < len(s.Values) {
+						defs++
+						def = s.Values[i]
+					} else {
+						writes++
+					}
+				}
+			}
+		case *ast.IncDecStmt:
+			if id, ok := s.X.(*ast.Ident); ok && id.Name == name {
+				writes++
+			}
+		case *ast.UnaryExpr:
+			if id, ok := s.X.(*ast.Ident); ok && s.Op == token.AND && id.Name == name {
+				writes++
+			}
+		case *ast.RangeStmt:
+			for _, e := range []ast.Expr{s.Key, s.Value} {
+				if id, ok := e.(*ast.Ident); ok && id.Name == name {
+					writes++
+				}
+			}
+		}
+		return true
+	})
+	if defs == 1 && writes == 0 {
+		return def
+	}
+	return nil
+}
+
+func (t *tr) expected(p string) bool {
+	for _, q := range t.a.Params {
+		if q == p {
+			return true
+		}
+	}
+	return false
 }
 
 func exprString(e ast.Expr) string {
@@ -110,6 +181,25 @@ func (t *tr) expr(e ast.Expr) string {
 				return fmt.Sprintf("%d#64", uint64(c))
 			case string:
 				return "(BitVec.ofNat 64 " + c + ")"
+			}
+		}
+		if id, ok := e.(*ast.Ident); ok && t.a.Params != nil && !t.expected(sanitize(s)) && !t.inlining[id.Name] {
+			if def := t.singleDef(id.Name); def != nil {
+				if t.inlining == nil {
+					t.inlining = map[string]bool{}
+				}
+				t.inlining[id.Name] = true
+				saveErr, saveParams, saveSeen := t.err, append([]string(nil), t.params...), map[string]bool{}
+				for k, v := range t.seen {
+					saveSeen[k] = v
+				}
+				r := "(" + t.expr(def) + ")"
+				delete(t.inlining, id.Name)
+				if t.err == saveErr {
+					return r
+				}
+				// the definition is not a translatable pure expression: keep the identifier as a parameter
+				t.err, t.params, t.seen = saveErr, saveParams, saveSeen
 			}
 		}
 		return t.param(s)
@@ -325,10 +415,12 @@ func main() {
 			files[a.File] = f
 		}
 		var e ast.Expr
+		var theFd *ast.FuncDecl
 		if f != nil {
 			for _, d := range f.Decls {
 				if fd, ok := d.(*ast.FuncDecl); ok && funcName(fd) == a.Func && fd.Body != nil {
 					e = find(fd, a.Var, a.Occ)
+					theFd = fd
 				}
 			}
 		}
@@ -336,7 +428,7 @@ func main() {
 			lost = append(lost, a.Name)
 			continue
 		}
-		t := &tr{a: a, seen: map[string]bool{}}
+		t := &tr{a: a, seen: map[string]bool{}, fd: theFd}
 		isCond := strings.HasPrefix(a.Var, "if")
 		var body string
 		if isCond {
